@@ -1,6 +1,6 @@
 (* Wire entry points of the C19 model (Classification: learning-time scaling, call/test/evaluate sequences). *)
 From Coq Require Import ZArith List QArith Qcanon Bool.
-From SG Require Import Base.Sx Base.QcUtil Model.DataSet Model.Classify Entry.C18.
+From SG Require Import Base.Sx Base.QcUtil Model.DataSet Model.Classify Model.ClassifyLearn Entry.C18.
 Import ListNotations.
 Open Scope Z_scope.
 
@@ -13,7 +13,8 @@ Definition of_outcome (o : outcome) : sx :=
   | OTest d cls s => Lv [Zv 0; of_ds d; of_LZ cls; of_summary s]
   end.
 
-(* one later call: (1 dataset dens) = __call__, (2 dataset dens) = test_data, (3) = evaluate; observation + calc afterwards *)
+(* one later call: (1 dataset dens) = __call__, (2 dataset dens) = test_data, (3) = evaluate,
+   (4 dens) = continue_dimension_wise_refinement (dens: new densities at ALL testing samples); observation + calc afterwards *)
 Definition cstep (v : variant) (cv : cvariant) (st : cstate) (op : sx) : cstate * sx :=
   match op with
   | Lv [Zv 1; d; dens] =>
@@ -28,6 +29,15 @@ Definition cstep (v : variant) (cv : cvariant) (st : cstate) (op : sx) : cstate 
     end
   | Lv [Zv 3] =>
     (st, Lv [match evaluate st with Some s => Lv [Zv 0; of_summary s] | None => Lv [Zv 1] end; of_LZ (c_calc st)])
+  | Lv [Zv 4; dens] =>
+    match get_LLQc dens with
+    | Some dens =>
+      match continue_refinement cv st dens with
+      | Some st' => (st', Lv [Lv [Zv 0]; of_LZ (c_calc st')])
+      | None => (st, sx_err 14)
+      end
+    | None => (st, sx_err 13)
+    end
   | _ => (st, sx_err 10)
   end.
 
@@ -46,7 +56,19 @@ Definition get_range (s : sx) : option (option (row * row)) :=
 
 (* sub 0: ((dedup fullcmp store labelmap) dataset data_range class_labels test_labels dens_test (op ...))
           -> ((0 min max fac scaled omitted) calc0 obs...)  |  ((1)) when the initialisation raises
-   sub 1: (densities) -> arg-max index (numpy argmax) *)
+   sub 1: (densities) -> arg-max index (numpy argmax)
+   sub 2: the learning side inside the model (Model/ClassifyLearn.v):
+          ((dedup fullcmp store labelmap) dataset data_range (is_float p even perm? idx lo_split) lo_learn dens_test (op ...))
+          perm? = () when shuffle_data=False, (perm) otherwise; idx / lo_split / lo_learn = iteration orders of the Python sets
+          -> ((0 min max fac scaled omitted) (0 learning testing lo_learn_ok) calc0 obs...)
+           | ((1))  initialisation raises   | ((0 ...) (1))  the split raises / an order input is rejected by its checker *)
+Definition get_permopt (s : sx) : option (option (list nat)) :=
+  match s with
+  | Lv [] => Some None
+  | Lv [p] => match get_Lnat p with Some p => Some (Some p) | None => None end
+  | _ => None
+  end.
+
 Definition entry_C19 (sub : Z) (a : sx) : sx :=
   match sub, a with
   | 0, Lv [Lv [vd; vf; vs; vl]; d; rg; cl; tl; dt; Lv ops] =>
@@ -63,6 +85,31 @@ Definition entry_C19 (sub : Z) (a : sx) : sx :=
             :: of_LZ calc0 :: crun v cv st ops)
       end
     | _, _, _, _, _, _, _, _, _ => sx_err 3
+    end
+  | 2, Lv [Lv [vd; vf; vs; vl]; d; rg; Lv [isf; p; ev; pm; idx; los]; lol; dt; Lv ops] =>
+    match get_bool vd, get_bool vf, get_bool vs, get_bool vl, get_ds d, get_range rg with
+    | Some vd, Some vf, Some vs, Some vl, Some d, Some rg =>
+      match get_bool isf, get_Qc p, get_bool ev, get_permopt pm, get_Lnat idx, get_LZ los, get_LZ lol, get_LLQc dt with
+      | Some isf, Some p, Some ev, Some pm, Some idx, Some los, Some lol, Some dt =>
+        let v := mkVariant vd vf in
+        let cv := mkCV vs vl in
+        match initialize v d rg with
+        | None => Lv [Lv [Zv 1]]
+        | Some ir =>
+          let isx := Lv [Zv 0; of_LQc (i_min ir); of_LQc (i_max ir); of_LQc (i_fac ir); of_ds (i_scaled ir); of_ds (i_omitted ir)] in
+          match init_split v (i_scaled ir) pm idx los ev (norm_percentage isf p) with
+          | None => Lv [isx; Lv [Zv 1]]
+          | Some (learn, test) =>
+            let tl := map snd (rows test) in
+            let calc0 := match tl with [] => [] | _ => classificate cv lol dt end in
+            let st := mkC (i_min ir) (i_max ir) (i_fac ir) (i_scaled ir) lol tl calc0 true in
+            Lv (isx :: Lv [Zv 0; of_ds learn; of_ds test; sx_bool (label_order_ok lol (rows learn))]
+                :: of_LZ calc0 :: crun v cv st ops)
+          end
+        end
+      | _, _, _, _, _, _, _, _ => sx_err 6
+      end
+    | _, _, _, _, _, _ => sx_err 5
     end
   | 1, l => match get_LQc l with Some l => Zv (Z.of_nat (argmax l)) | None => sx_err 4 end
   | _, _ => sx_err 0
